@@ -15,6 +15,8 @@ src=/tmp/advout-$b/$k; wt=/tmp/adv-$b
 [ -d "$wt" ] || git -C /repo worktree add -q --detach $wt HEAD
 checks=${*:-$(python3 -c "import json;print(' '.join(c['property_id'] for c in json.load(open('$V/MANIFEST.json'))['checks']))")}
 git -C $wt checkout -q -- . ; git -C $wt clean -qfd
+# the scratch worktree follows /repo HEAD (fix: commits made since it was created)
+git -C $wt checkout -q --detach $(git -C /repo rev-parse HEAD)
 git -C $wt apply $src/patch.diff || { echo "patch does not apply"; exit 2; }
 suite=$(cd $wt && go build ./pkg/... && go build -tags verif ./pkg/... && go test -vet=off -count=1 ./pkg/... ./test/... 2>&1 | grep -v 'no test files' | tr '\n' ';')
 echo "patched suite: $suite"
